@@ -73,7 +73,10 @@ NONASCII = "ä€\U0001F600"
 
 # the hostile alphabet of DESIGN 7/C19
 ALPHABET_FULL = ["", ".", "..", "a", "a/b", "/", "etc", "passwd", "\0", "a\0b", "%2e%2e", "%2f", LONG300, LONG255,
-                 NONASCII, "f1", "d", "srv", "root", "root2", "rootfile", "tmp", "x", "..."]
+                 NONASCII, "f1", "d", "srv", "root", "root2", "rootfile", "tmp", "x", "...",
+                 # compatibility look-alikes of the path-significant characters (full-width solidus / full stop, two dot
+                 # leader, one dot leader): harmless as they are, dangerous if anything normalises after validation
+                 "\u2025\uff0fsecret", "\uff0fetc\uff0fpasswd", "\uff0e\uff0e", "\u2025", "\u2025\uff0froot2\uff0fsecret"]
 ALPHABET_QUICK = ["", ".", "..", "a", "a/b", "/", "etc", "passwd", "\0", "%2e%2e", "srv", "rootfile", "f1"]
 
 STD_TREE = {
@@ -134,7 +137,8 @@ def req(m, path, **kw):
 
 EXISTING_FILES = [f[0].split("/") for f in STD_TREE["files"]]
 EXISTING_DIRS = [d.split("/") for d in STD_TREE["dirs"]]
-UNI_POOL = list("abzAZ09._-~ %/\\\0\n:;<>,\"'") + ["é", "€", "\U0001F600", "‮", "́", "﻿", ".."]
+UNI_POOL = list("abzAZ09._-~ %/\\\0\n:;<>,\"'") + ["é", "€", "\U0001F600", "‮", "́", "﻿", "..", "\uff0f", "\u2025",
+                                                       "\uff0e", "\u2024"]
 
 
 def gen_component(r):
